@@ -28,6 +28,84 @@ OUT = os.path.join(HERE, "lean", "AsyncFix", "Generated")
 class TranslatorError(Exception):
     pass
 
+# --------------------------------------------------------------------------
+# AST helpers shared by the generators: the SHAPE in which the source spells a literal table may change
+# (annotated assignment, literal moved to a module / class constant, frozenset(...) around it) without the
+# table changing - the generators read the table, not the spelling.
+# --------------------------------------------------------------------------
+class _DropAnnotations(ast.NodeTransformer):
+    def visit_AnnAssign(self, node):
+        self.generic_visit(node)
+        if node.value is None:
+            return node
+        return ast.copy_location(ast.Assign(targets=[node.target], value=node.value), node)
+
+
+def parse_source(src):
+    """ast of the source with `x: T = v` read as `x = v`"""
+    tree = _DropAnnotations().visit(ast.parse(src))
+    ast.fix_missing_locations(tree)
+    return tree
+
+
+def _as_set_literal(value):
+    """ast.Set behind `{...}`, `frozenset({...})`, `set([...])`, `frozenset((...))`; else None"""
+    if isinstance(value, ast.Set):
+        return value
+    if isinstance(value, ast.Call) and isinstance(value.func, ast.Name) and value.func.id in ("set", "frozenset") \
+            and len(value.args) == 1 and not value.keywords:
+        a = value.args[0]
+        if isinstance(a, ast.Set):
+            return a
+        if isinstance(a, (ast.List, ast.Tuple)):
+            return ast.Set(elts=a.elts)
+    return None
+
+
+def _named_constants(tree, cls=None):
+    """module level (and, when given, class level) `NAME = <expr>` assignments"""
+    out = {}
+    bodies = [tree.body]
+    if cls is not None:
+        bodies.append(cls.body)
+    for body in bodies:
+        for n in body:
+            if isinstance(n, ast.Assign) and len(n.targets) == 1 and isinstance(n.targets[0], ast.Name):
+                out[n.targets[0].id] = n.value
+    return out
+
+
+def find_set_literal(tree, fn, var, elt_ok, cls=None):
+    """the set literal the function `fn` uses under the local name `var` - assigned in the function directly, or
+    through a module / class constant; when the local name is gone: the one module / class level set constant that
+    the function refers to and whose elements all satisfy elt_ok.  Returns an ast.Set or None."""
+    consts = _named_constants(tree, cls)
+
+    def resolve(value, depth=0):
+        lit = _as_set_literal(value)
+        if lit is not None or depth > 3:
+            return lit
+        if isinstance(value, ast.Name) and value.id in consts:
+            return resolve(consts[value.id], depth + 1)
+        if isinstance(value, ast.Attribute) and value.attr in consts:          # self.X / Cls.X
+            return resolve(consts[value.attr], depth + 1)
+        return None
+
+    for node in ast.walk(fn):
+        if isinstance(node, ast.Assign) and len(node.targets) == 1 and isinstance(node.targets[0], ast.Name) \
+                and node.targets[0].id == var:
+            return resolve(node.value)
+    used = {n.id for n in ast.walk(fn) if isinstance(n, ast.Name)} | {n.attr for n in ast.walk(fn) if isinstance(n, ast.Attribute)}
+    cands = []
+    for name, value in consts.items():
+        if name in used:
+            lit = resolve(value)
+            if lit is not None and lit.elts and all(elt_ok(e) for e in lit.elts):
+                cands.append(lit)
+    return cands[0] if len(cands) == 1 else None
+
+
+
 
 def lstr(s: str) -> str:
     out = ['"']
@@ -117,31 +195,24 @@ def gen_connenum():
     from asyncfix.connection import ConnectionRole, ConnectionState
 
     src = open(os.path.join(REPO, "asyncfix", "connection.py")).read()
-    tree = ast.parse(src)
+    tree = parse_source(src)
     noreply = None
-    for node in ast.walk(tree):
-        if isinstance(node, ast.AsyncFunctionDef) and node.name == "_process_resend":
-            for sub in ast.walk(node):
-                if (
-                    isinstance(sub, ast.Assign)
-                    and len(sub.targets) == 1
-                    and isinstance(sub.targets[0], ast.Name)
-                    and sub.targets[0].id == "noreply_msgs"
-                ):
-                    if not isinstance(sub.value, ast.Set):
-                        raise TranslatorError("noreply_msgs is not a set literal")
-                    noreply = []
-                    for e in sub.value.elts:
-                        if (
-                            isinstance(e, ast.Attribute)
-                            and isinstance(e.value, ast.Name)
-                            and e.value.id == "FMsg"
-                        ):
-                            noreply.append(str(getattr(FMsg, e.attr).value))
-                        elif isinstance(e, ast.Constant) and isinstance(e.value, str):
-                            noreply.append(e.value)
-                        else:
-                            raise TranslatorError("noreply_msgs: unsupported element")
+
+    def fmsg_elt(e):
+        return (isinstance(e, ast.Attribute) and isinstance(e.value, ast.Name) and e.value.id == "FMsg"
+                and hasattr(FMsg, e.attr)) or (isinstance(e, ast.Constant) and isinstance(e.value, str))
+
+    for cls in [n for n in ast.walk(tree) if isinstance(n, ast.ClassDef)]:
+        for node in cls.body:
+            if isinstance(node, ast.AsyncFunctionDef) and node.name == "_process_resend":
+                lit = find_set_literal(tree, node, "noreply_msgs", fmsg_elt, cls)
+                if lit is None:
+                    raise TranslatorError("noreply_msgs: no set literal of FMsg members found for _process_resend")
+                noreply = []
+                for e in lit.elts:
+                    if not fmsg_elt(e):
+                        raise TranslatorError("noreply_msgs: unsupported element")
+                    noreply.append(str(getattr(FMsg, e.attr).value) if isinstance(e, ast.Attribute) else e.value)
     if noreply is None:
         raise TranslatorError("noreply_msgs literal not found in _process_resend")
 
@@ -172,7 +243,7 @@ def gen_ordertable():
     from asyncfix.protocol.common import FExecType, FOrdStatus
 
     path = os.path.join(REPO, "asyncfix", "protocol", "order_single.py")
-    tree = ast.parse(open(path).read())
+    tree = parse_source(open(path).read())
     fn = None
     for node in ast.walk(tree):
         if isinstance(node, ast.FunctionDef) and node.name == "change_status":
